@@ -141,6 +141,7 @@ def run(tier):
                 {k: v for k, v in (info or {}).items() if k != 'events'}), {'srv': srv, 'info': info})
     granular_leg(ck, rnd, tier)
     variants_leg(ck, servers, rnd, tier)
+    sequence_leg(ck)
     for k in pick[:3]:
         ck.sample({'server': {'moduli': list(k[0]), 'style': k[1], 'openssh': k[2], 'gex': list(k[3])}, 'asked': servers[k]['asked'],
                    'reported': servers[k]['reported']})
@@ -150,6 +151,45 @@ def run(tier):
     ck.cov['exhaustive'] = (tier == 'thorough')
     ck.assumptions += ['the fake server hands out g = 1 and a modulus of exactly the selected bit length (the tool verifies neither)']
     return ck.finish()
+
+
+def sequence_leg(ck):
+    """Several servers in one invocation (-T): the size shown for a server is what was measured on that server - a server that
+    refuses every group-exchange request gets no size, whatever was measured on the server audited before it."""
+    import json
+    from checks import multi
+    def srv(moduli, style='roundup', refuse=False):
+        return peers.ServerCfg(banner=b'SSH-2.0-Generic_1.0', kexinit={'kex': ['curve25519-sha256', GEX256, GEX1], 'key': ['ssh-ed25519'], 'enc': ['aes128-ctr'],
+                                                                    'mac': ['hmac-sha2-256'], 'comp': ['none']},
+                               hostkeys={'ssh-ed25519': peers.ed25519_blob()}, gex=None if refuse else {'style': style, 'moduli': moduli})
+    shapes = [('m1024', srv([1024, 2048]), 1024), ('refuses', srv([], refuse=True), None), ('m4096', srv([4096]), 4096), ('strict-none', srv([], style='strict'), None)]
+    scs = []
+    for order in ((0, 1), (0, 1, 2, 3), (2, 3, 0, 1), (1, 0), (3, 2, 1, 0)):
+        for threads in (1, 2):
+            sc, labels = multi.scenario([('server', shapes[i][1]) for i in order], threads, tuple(range(len(order))) if threads == 1 else None, json_out=True)
+            scs.append((sc, labels, order, threads))
+    for (sc, labels, order, threads), r in zip(scs, runner.run_many([x[0] for x in scs])):
+        ck.evaluated()
+        if r.get('harness_error') or r.get('hang'):
+            raise common.Machinery('target-list run failed: %r' % (r.get('harness_error') or 'hang'))
+        replay = {'order': [shapes[i][0] for i in order], 'threads': threads, 'argv': sc['argv'], 'exit': r['exit'], 'stdout': r['stdout'][-2500:]}
+        try:
+            docs = {el['target']: el for el in json.loads(r['stdout'])}
+        except (ValueError, KeyError, TypeError):
+            ck.violation('sequence-json-unparsable', 'stdout of a -T -j run of healthy servers is not a JSON array of reports', replay)
+            continue
+        bad = False
+        for lab, i in zip(labels, order):
+            want = shapes[i][2]
+            for ent in report.json_algs(docs.get(lab, {})).get('kex', []):
+                if ent['name'] in (GEX1, GEX256) and ent.get('keysize') != want:
+                    ck.violation('gex-size sequence %s' % ('spurious' if want is None else 'wrong'),
+                                 'server %s audited as target %d of %r (%d thread(s)): %s shown with %s bits, measured on this server: %s'
+                                 % (shapes[i][0], order.index(i) + 1, [shapes[j][0] for j in order], threads, ent['name'], ent.get('keysize'), want), replay)
+                    bad = True
+        if not bad:
+            ck.cov['traces_validated_against_impl'] += 1
+            ck.nontrivial(('sequence', order, threads))
 
 
 def variants_leg(ck, servers, rnd, tier):
